@@ -17,6 +17,13 @@ def oracle(chk, p, r, m):
     except ninjaparse.ParseError:
         return
     prod = ninjaparse.producers(pn)
+    # "ordered before": an order-only dependency orders nothing unless some statement of the file produces it (ninja: "missing and no
+    # known rule to make it"). Everything laze lists there is a tag file, a custom build output or an alias — all made by the file itself.
+    for st in pn["builds"]:
+        for o in st["order_only"]:
+            if o != "ALWAYS" and o not in prod:
+                chk.fail_oracle("order:dep-file-without-producer", f"{st['outs']} waits for {o}, which no statement of the file produces", {"project": p})
+                return
     for b in r["dump"]:
         if b["decision"] == "dep-cycle":
             chk.count("dep-cycle-dropped")
